@@ -238,10 +238,11 @@ type expectation struct {
 	overwrites int // mentioned primitive settings
 	listMerges map[string]bool
 	classes    map[string]bool
+	sep        string // path separator of the call: field names are split by it
 }
 
-func newExpectation() *expectation {
-	return &expectation{leafTypes: map[string]reflect.Type{}, listMerges: map[string]bool{}, classes: map[string]bool{}}
+func newExpectation(sep string) *expectation {
+	return &expectation{leafTypes: map[string]reflect.Type{}, listMerges: map[string]bool{}, classes: map[string]bool{}, sep: sep}
 }
 
 // badSetting is returned when a mentioned setting cannot be unpacked on its own.
@@ -533,7 +534,7 @@ func (x *expectation) merge(t *gen.TD, pol string, old reflect.Value, s *gen.Tre
 			if f.Ignore || f.Unexp {
 				// never touched by Unpack: as pre-filled or as InitDefaults set it
 				x.checkStrict(fv, gotF, fp)
-				if mentioned(s.Get(f.ConfigName())) {
+				if mentioned(lookup(s, f.ConfigName(), x.sep)) {
 					x.classes["setting under the name of a skipped field"] = true
 				}
 				continue
@@ -547,7 +548,7 @@ func (x *expectation) merge(t *gen.TD, pol string, old reflect.Value, s *gen.Tre
 			if f.Inline {
 				w, err = x.merge(f.T, fpol, fv, s, gotF, fp)
 			} else {
-				w, err = x.field(f.T, fpol, fv, s.Get(f.ConfigName()), gotF, fp)
+				w, err = x.field(f.T, fpol, fv, lookup(s, f.ConfigName(), x.sep), gotF, fp)
 			}
 			if err != nil || x.outside {
 				return invalid, err
@@ -591,17 +592,17 @@ func anyNonZero(v reflect.Value) bool {
 // unmentionedNonZero counts the struct fields (top level, inline structs and
 // structs reached through mentioned settings) that the configuration does not
 // mention and whose pre-filled value is not zero.
-func unmentionedNonZero(t *gen.TD, v reflect.Value, s *gen.Tree) int {
+func unmentionedNonZero(t *gen.TD, v reflect.Value, s *gen.Tree, sep string) int {
 	sh := t.Shape()
 	n := 0
 	for i := range sh.Fields {
 		f := &sh.Fields[i]
 		fv := gen.Exported(v.Field(i))
 		if f.Inline {
-			n += unmentionedNonZero(f.T, fv, s)
+			n += unmentionedNonZero(f.T, fv, s, sep)
 			continue
 		}
-		fs := s.Get(f.ConfigName())
+		fs := lookup(s, f.ConfigName(), sep)
 		if f.Ignore || f.Unexp || !mentioned(fs) {
 			if anyNonZero(fv) {
 				n++
@@ -613,7 +614,7 @@ func unmentionedNonZero(t *gen.TD, v reflect.Value, s *gen.Tree) int {
 			ft, fv = ft.Shape().Elem, fv.Elem()
 		}
 		if ft.Shape().Kind == "struct" && leafBase(ft) == "" && fs.K == "obj" {
-			n += unmentionedNonZero(ft, fv, fs)
+			n += unmentionedNonZero(ft, fv, fs, sep)
 		}
 	}
 	return n
